@@ -78,6 +78,9 @@ def run(ctx):
             ctx.count('decoder_reused')
             for _ in range(rng.choice([1, 1, 2])):
                 rows_w = pb.gen_matrix(rng, C=C)
+                if rng.random() < 0.3:
+                    # an all-blank line (no character above the relevance threshold in any frame): every frame takes the short cut
+                    rows_w = [[0] * (C - 1) + [1] for _ in range(rng.randrange(1, 5))]
                 if pb.near_threshold(rows_w):
                     continue
                 hw = rng.randrange(toy.m) if rng.random() < 0.7 else None
